@@ -447,6 +447,7 @@ type Clause struct {
 	Anchor string // assert: source text prefix of the statement the assertion is attached to
 	When   string // assert: before | after
 	Hit    bool
+	Assume bool // assume clause: taken as a fact at the anchor and reported as an assumption
 	Views []string // optional: views (property ids) this clause belongs to; empty = all
 }
 
@@ -512,7 +513,7 @@ var clauseKw = map[string]bool{
 	"func": true, "spec": true, "lemma": true, "requires": true, "ensures": true, "modifies": true,
 	"loop": true, "invariant": true, "decreases": true, "inline": true, "trusted": true, "pure": true,
 	"mode": true, "ghost": true, "ensures_on_panic": true, "axiom": true, "given": true, "nopanic": true, "opaque": true,
-	"assert": true,
+	"assert": true, "assume": true,
 }
 
 // ReadSpecFile parses the //@ lines of a file.
@@ -649,8 +650,9 @@ func ReadSpecFile(path, pkg string) (*SpecFile, error) {
 				return nil, fmt.Errorf("%s:%d: clause %s outside func", path, r.line, kw)
 			}
 			switch kw {
-			case "assert":
+			case "assert", "assume":
 				// assert[label] before|after "statement text prefix" : expr
+				// assume[label] before|after "statement text prefix" : expr   (an explicit, reported assumption: never proved)
 				txt := strings.TrimSpace(r.text)
 				when := "before"
 				if strings.HasPrefix(txt, "after ") {
@@ -673,6 +675,7 @@ func ReadSpecFile(path, pkg string) (*SpecFile, error) {
 					return nil, err
 				}
 				c.Anchor, c.When = anchor, when
+				c.Assume = kw == "assume"
 				curF.Asserts = append(curF.Asserts, c)
 			case "requires", "ensures", "ensures_on_panic":
 				c, err := mk(r)
